@@ -101,8 +101,17 @@ structure Scen where
   mode : String
   sched : List Nat
 
+/-- one task = two tokens `x y`: `set_dependency(x); set_extra_dependency(y)` (a `-` = call not made);
+a leading `r` on the first token = the two calls in the other order -/
+def setOps (a b : String) : List SetOp :=
+  let rev := a.startsWith "r"
+  let a' := if rev then (a.drop 1).toString else a
+  let d := match optNat a' with | some x => [SetOp.dep x] | none => []
+  let e := match optNat b with | some y => [SetOp.extra y] | none => []
+  if rev then e ++ d else d ++ e
+
 def pairs : List String → List (Option Nat × Option Nat)
-  | a :: b :: rest => mkDeps (optNat a) (optNat b) :: pairs rest
+  | a :: b :: rest => setupDeps (setOps a b) :: pairs rest
   | _ => []
 
 /-- hydro section: one token `children:queue` per task, children comma separated or `-` -/
